@@ -177,8 +177,14 @@ class GarbageCollector:
 
         try:
             markers = self.storage.list_files(INFLIGHT_PATH)
-        except Exception:
-            markers = []
+        except Exception as e:
+            # Fail closed: without the marker listing we do not know which
+            # files are protected. Treating a failed listing as "no markers"
+            # deleted the (older-than-grace) files of open transactions.
+            raise GarbageCollectionAborted(
+                f"Aborting GC: cannot list in-flight markers under {INFLIGHT_PATH}: {e}. "
+                f"Nothing was deleted."
+            ) from e
 
         for marker_path in markers:
             norm_marker = self._normalize_path(marker_path)
